@@ -548,7 +548,9 @@ func (rr *rulesRunner) renderMessage(msg string, m matchData, truncate bool) str
 			// For example, pattern `func $_() $results { $*_ }` may
 			// match a nil *ast.FieldList for $results if executed
 			// against a function with no results.
-			if reflect.ValueOf(n).IsNil() && !gogrep.IsEmptyNodeSlice(n) {
+			// `switch $*init { $*_ }` binds $init to no node at all
+			// for a switch that has neither an init statement nor a tag.
+			if n == nil || (reflect.ValueOf(n).IsNil() && !gogrep.IsEmptyNodeSlice(n)) {
 				continue
 			}
 			capture = append(capture, c)
